@@ -197,9 +197,31 @@ def run_lookup(case):
             write_table(base, name, tab)
         if case["ini"]:
             write_ini(base, tables)
+        if case.get("table2d"):
+            t2 = case["table2d"]
+            with open(os.path.join(base, "surf.csv"), "w") as fh:
+                fh.write("surf,sx,sy\n")
+                for xv in t2["x"]:
+                    for yv in t2["y"]:
+                        fh.write("%r,%r,%r\n" % (t2["a"] * xv + t2["b"] * yv + t2["c"] * xv * yv + 0.1 * xv * xv, xv, yv))
         p = make_problem(base)
         p.pre()
         out = {}
+        if case.get("table2d"):
+            from scipy.interpolate import bisplev
+            lt2 = p.lookup_tables(0)["surf"]
+            tx, ty = lt2._LookupTable__t
+            c2 = lt2._LookupTable__c
+            kx, ky = lt2._LookupTable__k
+            t2 = case["table2d"]
+            pts = [(t2["x"][0] + f * (t2["x"][-1] - t2["x"][0]), t2["y"][0] + g * (t2["y"][-1] - t2["y"][0]))
+                   for f, g in ((0.1, 0.2), (0.5, 0.5), (0.33, 0.8), (0.9, 0.15), (0.0, 0.0), (0.7, 0.7))]
+            o2 = {"points": pts, "table": [float(lt2(a, b)) for a, b in pts],
+                  "ref": [float(bisplev(a, b, (tx, ty, c2, kx, ky))) for a, b in pts], "nan": []}
+            for a, b in ((pts[1][0], float("nan")), (float("nan"), pts[1][1]), (float("nan"), float("nan"))):
+                v = float(lt2(a, b))
+                o2["nan"].append(None if math.isnan(v) else v)
+            out["__2d__"] = o2
         for name, tab in tables.items():
             lt = p.lookup_tables(0)[name]
             t, c, k = lt._LookupTable__t, lt._LookupTable__c, lt._LookupTable__k
@@ -213,7 +235,8 @@ def run_lookup(case):
             # inverse
             ylo, yhi = min(o["flo"], o["fhi"]), max(o["flo"], o["fhi"])
             span = yhi - ylo
-            ys = [ylo + span * f for f in (0.0, 0.1, 0.37, 0.5, 0.83, 1.0)] + [ylo - 0.1 * span - 1e-3, yhi + 0.1 * span + 1e-3]
+            ys = [ylo, yhi] + [ylo + span * f for f in (0.1, 0.37, 0.5, 0.83)] + [ylo - 0.1 * span - 1e-3, yhi + 0.1 * span + 1e-3]
+            ys += [float(np.nextafter(yhi, -np.inf)), float(np.nextafter(ylo, np.inf))]
             inv = []
             for yv in ys:
                 try:
@@ -349,6 +372,10 @@ def run(ctx):
         for _ in range(ctx.n(8, 250)):
             lookups.append({"tables": {"tab%d" % i: gen_table(rng, rng.choice(["inc_convex", "dec_convex", "inc", "dec", "dec_concave", "inc_concave"]))
                                        for i in range(rng.choice([1, 2]))}, "ini": rng.random() < 0.7})
+            if rng.random() < 0.5:
+                nx_, ny_ = rng.randint(5, 7), rng.randint(5, 8)
+                lookups[-1]["table2d"] = {"x": [float(i) * rng.choice([1, 2]) for i in range(nx_)], "y": [0.5 * j for j in range(ny_)],
+                                          "a": float(rng.randint(1, 4)), "b": float(rng.randint(-3, 3)), "c": float(rng.choice([0.5, -0.25, 1.0]))}
         caches = [c["case"] for c in corpus if c.get("kind") == "cache"]
         for _ in range(ctx.n(6, 150)):
             ops = ["pre"]
@@ -436,6 +463,15 @@ def run(ctx):
             ctx.violation("lookup/exception", dict(rep, error=res["error"]), no_input="/repo/src/rtctools" not in res["error"],
                           what="loading a lookup_tables folder raised: %s" % res["error"][:140])
             continue
+        o2 = res.pop("__2d__", None)
+        if o2 is not None:
+            ctx.count("lookup_2d_tables")
+            for pt, a, b in zip(o2["points"], o2["table"], o2["ref"]):
+                if not close(a, b, 1e-8):
+                    ctx.violation("lookup/evaluation-2d", dict(rep, point=pt, value=a, reference=b), what="2-D lookup table at %s = %r, reference spline %r" % (pt, a, b))
+                    break
+            if any(v is not None for v in o2["nan"]):
+                ctx.violation("lookup/nan-2d", dict(rep, got=o2["nan"]), what="a 2-D lookup table with a NaN argument returned %s instead of NaN" % (o2["nan"],))
         for name, o in res.items():
             tab = case["tables"][name]
             scale = max(1.0, max(abs(v) for v in tab["y"]))
@@ -456,7 +492,9 @@ def run(ctx):
     vals = core.eval_terms(ID + "rev", ["BSpline"], terms, shard=400) if terms else []
     for (case, name, o, inv, scale), v in zip(meta, vals):
         rep = {"kind": "lookup", "case": case, "table": name, "y": inv["y"], "range": o["range"], "f_at_domain_ends": [o["flo"], o["fhi"]]}
-        edge = min(abs(inv["y"] - o["flo"]), abs(inv["y"] - o["fhi"])) <= 1e-9 * scale
+        # the two end values themselves belong to the range; only values a rounding error outside are not judged
+        exact_end = inv["y"] in (o["flo"], o["fhi"])
+        edge = (not exact_end) and min(abs(inv["y"] - o["flo"]), abs(inv["y"] - o["fhi"])) <= 1e-9 * scale
         if v[0] == 1:
             if "raised" not in inv and not edge:
                 ctx.violation("lookup/inverse-accepted", dict(rep, got=inv), what="reverse_call accepted y = %r outside the range" % inv["y"])
